@@ -15,8 +15,10 @@ chk("C03", "exploration",
 chk("C18", "exploration",
     "canonicalize_name / is_filename_sane are run on every string over {'/','.','a','b',0xC3} up to length 10 (quick) / 12 (thorough) and on seeded "
     "random strings up to 4096 bytes, each in an exactly sized heap buffer under ASan+UBSan, and compared with an independent specification "
-    "(result, return value, no growth, idempotence, sanity equivalence). The enumeration is complete for the stated alphabet and length.",
-    "Trusted: the specification function in harness/canon_enum.c; ASan red zones for out-of-string accesses.",
+    "(result, return value, no growth, idempotence, sanity equivalence). The enumeration is complete for the stated alphabet and length. Tool level: 19 spellings of a path "
+    "(leading/trailing/repeated slashes, './' and '/./' components, '..' in every position) are given to rdsquashfs -s/-c/-l, sqfs2tar -d/-r, tar2sqfs -r and written as plain and quoted sort file names; "
+    "each must give exactly the result of the canonical spelling and a spelling with a '..' component must be refused.",
+    "Trusted: the specification function in harness/canon_enum.c (and its Python twin for the tool level); ASan red zones for out-of-string accesses.",
     "exhaustive enumeration against executable spec under ASan", "3/C18")
 chk("C02", "exploration",
     "Inputs built to make completion order differ from submission order are packed by gensquashfs and tar2sqfs under many -j/-Q values, seeded delays "
@@ -33,7 +35,7 @@ chk("C11", "exploration",
     "Orders are injected at the readdir call of project code; trees are generated (incl. multiply-linked files in and across directories).",
     "differential bytes under injected readdir permutations", "3/C11")
 chk("C12", "exploration",
-    "gensquashfs, tar2sqfs (stdin fed in chunks of 1..65536 bytes), sqfs2tar (plain and -c gzip/xz/zstd/bzip2 to a pipe), rdsquashfs cat/unpack and sqfsdiff "
+    "gensquashfs, tar2sqfs (stdin fed in chunks of 1..65536 bytes, plain and gzip/xz/zstd/bzip2 archives with one-byte reads at the format probe), rdsquashfs and sqfs2tar on an image cut short, sqfs2tar (plain and -c gzip/xz/zstd/bzip2 to a pipe), rdsquashfs cat/unpack and sqfsdiff "
     "are each run clean and then under seeded schedules of short counts (down to 1 byte) and EINTR runs injected at every read/write/pread/pwrite call of project code; "
     "exit status and output sha256 (image / stdout / unpacked tree) must equal the clean run. The wrapper log proves the injections fired.",
     "Injection at the project's own call sites (link-time wrap); libc-internal I/O (stdio messages) is not perturbed. Observed schedules only.",
@@ -85,7 +87,8 @@ chk("C04", "exploration",
     "An independent tar writer (vp/tarmodel.py) serialises generated trees in every supported dialect (v7, ustar with prefix, pre-POSIX, GNU long name/link, PAX path/linkpath/size/uid/gid/mtime, "
     "base-256 and negative/large numbers, old GNU/0.0/0.1/1.0 sparse maps with random hole layouts, SCHILY and LIBARCHIVE xattrs, hard links before/after their targets, implicit parents, './', '' and '/' prefixes). "
     "tar2sqfs (ASan) output is decoded by the independent parser and compared with the intended tree; sqfs2tar output is read by Python tarfile (binary-safe pax scan for xattrs) and must be accepted by GNU tar; "
-    "image -> tar -> image must preserve the tree and hard-link groups and the second round trip must be byte identical (images and archives); sqfs2tar -r/-X/-L variants are checked against the sub-tree expectation.",
+    "image -> tar -> image must preserve the tree and hard-link groups and the second round trip must be byte identical (images and archives); sqfs2tar -r/-X/-L/-d variants and tar2sqfs --root-becomes (with and without -S: link retargeting, hard link groups, root attributes) are checked against "
+    "exact expectations; images with socket inodes from the independent writer must lose exactly the sockets.",
     "Trusted: vp/tarmodel.py, Python tarfile, GNU tar, vp/sqfsimg.py. One open finding is matched by key (xattr order flips on each round trip).",
     "differential conversion against independent tar and SquashFS models", "3/C04")
 chk("C15", "exploration",
@@ -134,9 +137,10 @@ chk("C19", "exploration",
     "twin-object differential histories under ASan/LSan", "3/C19")
 chk("C07", "exploration",
     "Structured mutants of archives in every dialect (truncation at 512-byte boundaries and random offsets, every header field overwritten with hostile values with and without a repaired checksum, type flags, "
-    "PAX record edits, old-GNU and 1.0 sparse-map edits, all hard-link graphs over 3 (quick) / 4 (thorough) names including cycles, self links, links to directories and missing names, GNU long-name records, "
+    "PAX record edits and sequences of sparse records inside one PAX header, old-GNU and 1.0 sparse-map edits, all hard-link graphs over 3 (quick) / 4 (thorough) names including cycles, self links, links to directories and missing names, GNU long-name records, "
     "damaged compressed wrappers, junk) are piped into the ASan+UBSan tar2sqfs; mutated pack, sort and xattr files (every hostile fragment as its own line and appended to lines, plus random edits, CRLF, NUL, "
-    "very long lines, '..' paths, link cycles) are given to gensquashfs. Oracle: no sanitizer report, signal or hang (two-step watchdog); exit 0 requires an image that the independent parser decodes and "
+    "very long lines, '..' paths, link cycles, quoted value escapes; a pack file named without a directory component and no pack dir) are given to gensquashfs; valid inputs without file content are packed "
+    "without -q under compressor settings with and without an options block. Oracle: no sanitizer report, signal or hang (two-step watchdog); exit 0 requires an image that the independent parser decodes and "
     "validates; exit != 0 requires a diagnostic on stderr and no output file.",
     "Generated mutants only (libFuzzer targets from the design are not built). One open finding is matched by key (sparse member declaring a 2^62-byte size).",
     "structured mutation + ASan/UBSan CLI replay with image validation", "3/C07")
